@@ -172,6 +172,12 @@ def case_bounds(seed, out, spec, wd):
         sizes.append(size)
         values[(idx + j) % nloc] = big_value(r, k, size)
     config = {'frame_type': 'single_frame'}
+    watches = []
+    if r.chance(0.35):
+        # watch results are part of the snapshot: the same bounds apply to them
+        watches = r.sample(['%s' % names[idx], '[%s, %s]' % (names[0], names[-1]), '"w" * 3000', 'list(range(50))',
+                            '[[i] for i in range(30)]', 'str(%s) * 40' % names[0]], r.randrange(1, 3))
+        config['watches'] = list(watches)
     if use_knobs:
         config.update({'MAX_VARIABLES': lim['max_vars'], 'MAX_STRING_LENGTH': lim['max_str'],
                        'MAX_COLLECTION_SIZE': lim['max_coll'], 'MAX_VAR_DEPTH': lim['max_depth']})
@@ -179,7 +185,7 @@ def case_bounds(seed, out, spec, wd):
     if use_knobs:
         trig = direct_trigger('tp5', case.base, case.line, 'Snapshot', config)
     else:
-        trig = line_trigger('tp5', case.base, case.line, {}, [])
+        trig = line_trigger('tp5', case.base, case.line, {}, watches)
     probs = snapcheck.Problems()
     st = {'snaps': 0, 'bits': set()}
 
@@ -190,7 +196,8 @@ def case_bounds(seed, out, spec, wd):
 
     hung, _ = case.run([trig], on_hit)
     replay = replay_spec(spec, seed)
-    witness = {'limits': lim, 'knobs': use_knobs, 'kinds': kinds, 'sizes': sizes, 'big_at': big_at, 'locals': nloc}
+    witness = {'limits': lim, 'knobs': use_knobs, 'kinds': kinds, 'sizes': sizes, 'big_at': big_at, 'locals': nloc,
+               'watches': watches}
     if hung or case.hits == 0:
         out.inconc('C05 host did not run to the marked line seed=%s' % seed)
         return
@@ -245,9 +252,14 @@ def measure(snap, top, names, lim, probs, st):
                         vid, v.type, len(o), len(v.children), lim['max_coll']))
                 if len(o) > lim['max_coll'] and len(v.children) == lim['max_coll']:
                     st['bits'].add('collection')
-    # (d) nesting depth = shortest path from a frame variable in the reported structure
+    for vid, v in lookup.items():
+        if v.type in ('list', 'tuple', 'set', 'frozenset') and len(v.children) > lim['max_coll']:
+            probs.add('bounds:collection-size', 'entry %s (%s) has %d children, maximum %d' % (
+                vid, v.type, len(v.children), lim['max_coll']))
+    # (d) nesting depth = shortest path from a frame variable (or watch result) in the reported structure
     depth = {}
     cur = [x.vid for x in snap.frames[0].variables if x.vid in lookup]
+    cur += [w.result.vid for w in snap.watches if w.result is not None and w.result.vid in lookup]
     for c in cur:
         depth.setdefault(c, 1)
     d = 1
